@@ -2,6 +2,8 @@ package core
 
 import (
 	"fmt"
+	"go/constant"
+	"go/token"
 	"go/types"
 
 	"golang.org/x/tools/go/ssa"
@@ -166,6 +168,7 @@ type factTrail struct {
 	existed bool
 	kv      bool // knownVal entry
 	note    bool // notes entry
+	mult    bool // mults entry (oldB.lo holds the old modulus)
 	oldT    *Term
 	bd      bool // bounds entry
 	oldB    bound
@@ -193,6 +196,7 @@ type Explorer struct {
 	inOnFact    bool
 	inFreshLoad bool
 	notes       map[int]*Term // rule-defined relation attached to a term (undone on backtracking)
+	mults       map[int]int64 // term is known to be a multiple of this modulus (undone on backtracking)
 	depth       int           // prover recursion depth
 	ftrail      []factTrail
 	events      []Event
@@ -226,6 +230,7 @@ func (x *Explorer) Paths(fn *ssa.Function, o Opts, cb func(*Path)) (int, error) 
 	x.facts, x.known = map[int]bool{}, map[int]*Term{}
 	x.bounds = map[int]bound{}
 	x.notes = map[int]*Term{}
+	x.mults = map[int]int64{}
 	x.etrail, x.mtrail, x.ftrail, x.events, x.lits, x.blocks = nil, nil, nil, nil, nil, nil
 	x.counter, x.epoch, x.paths, x.err = 0, 0, 0, nil
 	x.allocN = map[*ssa.Alloc]int{}
@@ -324,7 +329,13 @@ func (x *Explorer) restore(s snapshot) {
 	x.mtrail = x.mtrail[:s.mtrail]
 	for i := len(x.ftrail) - 1; i >= s.ftrail; i-- {
 		t := x.ftrail[i]
-		if t.note {
+		if t.mult {
+			if t.existed {
+				x.mults[t.id] = t.oldB.lo
+			} else {
+				delete(x.mults, t.id)
+			}
+		} else if t.note {
 			if t.existed {
 				x.notes[t.id] = t.oldT
 			} else {
@@ -395,6 +406,16 @@ func (x *Explorer) setFact(t *Term, v bool) {
 		oldT, ok := x.known[t.Args[0].ID]
 		x.ftrail = append(x.ftrail, factTrail{id: t.Args[0].ID, kv: true, oldT: oldT, existed: ok})
 		x.known[t.Args[0].ID] = t.Args[1]
+	}
+	// m[k] == c with c not the zero value: the map has an entry, so it is not nil
+	if v && t.Kind == KEq && t.Args[0].Kind == KLookup && t.Args[1].IsConst() && !isZeroConst(t.Args[1]) {
+		m := t.Args[0].Args[0]
+		nilT := x.T.mk(Term{Kind: KConst, Type: m.Type})
+		if e := x.Eq(m, nilT); e.Kind == KEq {
+			if _, known := x.facts[e.ID]; !known {
+				x.setFact(e, false)
+			}
+		}
 	}
 	// s == "" / s != "" : length facts
 	if t.Kind == KEq && t.Args[1].IsConst() && isStringType(t.Args[0].Type) {
@@ -643,3 +664,70 @@ func (x *Explorer) SetNote(t, rel *Term) {
 
 // Note returns the term attached by SetNote, if any.
 func (x *Explorer) Note(t *Term) *Term { return x.notes[t.ID] }
+
+func isZeroConst(t *Term) bool {
+	if t.Val == nil {
+		return true
+	}
+	switch t.Val.Kind() {
+	case constant.String:
+		return constant.StringVal(t.Val) == ""
+	case constant.Bool:
+		return !constant.BoolVal(t.Val)
+	case constant.Int, constant.Float:
+		return constant.Sign(t.Val) == 0
+	}
+	return false
+}
+
+// AssumeMultiple records that integer term t is a multiple of w (w > 1).
+func (x *Explorer) AssumeMultiple(t *Term, w int64) {
+	old, ok := x.mults[t.ID]
+	x.ftrail = append(x.ftrail, factTrail{id: t.ID, mult: true, oldB: bound{lo: old}, existed: ok})
+	x.mults[t.ID] = w
+}
+
+// MultipleOf: t is a multiple of w by construction ((q / w) * w, sums and
+// differences of multiples, lengths of slices cut at multiples) or by a
+// recorded fact.
+func (x *Explorer) MultipleOf(t *Term, w int64) bool { return x.multipleOf(t, w, 0) }
+
+func (x *Explorer) multipleOf(t *Term, w int64, depth int) bool {
+	if w <= 1 {
+		return true
+	}
+	if depth > 8 {
+		return false
+	}
+	if m, ok := x.mults[t.ID]; ok && m%w == 0 {
+		return true
+	}
+	if c, ok := t.Int64(); ok {
+		return c%w == 0
+	}
+	switch t.Kind {
+	case KBin:
+		switch t.Op {
+		case token.MUL:
+			for _, a := range t.Args {
+				if c, ok := a.Int64(); ok && c%w == 0 {
+					return true
+				}
+				if x.multipleOf(a, w, depth+1) {
+					return true
+				}
+			}
+		case token.ADD, token.SUB:
+			return x.multipleOf(t.Args[0], w, depth+1) && x.multipleOf(t.Args[1], w, depth+1)
+		}
+	case KConv:
+		if s := x.stripWiden(t); s != t {
+			return x.multipleOf(s, w, depth+1)
+		}
+	case KLen:
+		if l := x.Len(t.Args[0]); l != t {
+			return x.multipleOf(l, w, depth+1)
+		}
+	}
+	return false
+}
